@@ -71,7 +71,18 @@ func genNamePool(t *rapid.T, n int) []string {
 		var name string
 		if len(out) > 0 && rapid.IntRange(0, 2).Draw(t, "related") == 0 {
 			base := out[rapid.IntRange(0, len(out)-1).Draw(t, "base")]
-			switch rapid.IntRange(0, 4).Draw(t, "rel") {
+			switch rapid.IntRange(0, 5).Draw(t, "rel") {
+			case 5: // the base name with the case of its last letter flipped (table subtests "GET" / "get"): TestA/get -> TestA/geT
+				name = base
+				for i := len(base) - 1; i > 4; i-- {
+					if c := base[i]; c >= 'a' && c <= 'z' {
+						name = base[:i] + string(c-32) + base[i+1:]
+						break
+					} else if c >= 'A' && c <= 'Z' {
+						name = base[:i] + string(c+32) + base[i+1:]
+						break
+					}
+				}
 			case 4: // the base name with its last character doubled: T/1 -> T/11, TestA -> TestAA
 				name = base + base[len(base)-1:]
 			case 0:
